@@ -4,6 +4,7 @@
 -/
 import Ptk.Model.C18Html
 import Ptk.Props.C18
+import Ptk.Gen.PyChars
 namespace Ptk.C18
 open Ptk.Py
 
@@ -625,5 +626,74 @@ example : htmlMod exPr "<b>%s</b> items: %c%5r".toList
     [{ kind := .num, s := "3".toList, r := "3".toList }, { s := "</b>".toList }] =
     .ok (some (.ok (.ok [⟨"class:b".toList, "3".toList, none⟩, ⟨[], ": </b>%".toList, none⟩]))) := by
   refine ⟨by rfl, by rfl⟩
+
+/-! ### attribute-position values cannot add style words -/
+
+/-- **Pin**: the `str.isspace` ranges the model uses are those of the running interpreter -/
+theorem pySpaceRanges_pinned : Gen.isSpaceRanges = pySpaceRanges := by decide
+
+/-- `s.split()`: the maximal runs of non-white-space characters (`cur` = the word being read) -/
+def splitWs : Text → Text → List Text
+  | cur, [] => if cur.isEmpty then [] else [cur]
+  | cur, c :: cs =>
+    if isPySpace c then (if cur.isEmpty then splitWs [] cs else cur :: splitWs [] cs)
+    else splitWs (cur ++ [c]) cs
+
+theorem splitWs_noSpace (cur t : Text) (h : hasPySpace t = false) (hne : cur ++ t ≠ []) :
+    splitWs cur t = [cur ++ t] := by
+  induction t generalizing cur with
+  | nil =>
+    have : cur ≠ [] := by simpa using hne
+    simp [splitWs, this]
+  | cons c cs ih =>
+    simp only [hasPySpace, List.any_cons, Bool.or_eq_false_iff] at h
+    simp only [splitWs, h.1, Bool.false_eq_true, if_false]
+    rw [ih (cur ++ [c]) (by simpa [hasPySpace] using h.2) (by simp)]
+    simp
+
+/-- the style words `get_current_style()` builds from a colour on the stack -/
+def fgWord (fg : Text) : Text := "fg:".toList ++ fg
+def bgWord (bg : Text) : Text := "bg:".toList ++ bg
+
+/-- **A value accepted in `fg=` / `bg=` / `color=` position is exactly ONE style word.**  When
+    `process_node` enters an element without raising, the colours it pushes contain no white space
+    of any kind (`str.isspace`), so `"fg:" + value` / `"bg:" + value` survive `str.split()` whole:
+    whatever an interpolated value contains, it cannot add a style word. -/
+theorem accepted_color_is_one_word (s s' : Stk) (name : Text) (attrs : List (Text × Text))
+    (h : stackStep s (.elemOpen name attrs) = .ok s') :
+    splitWs [] (fgWord (attrColors attrs ([], [])).1) = [fgWord (attrColors attrs ([], [])).1] ∧
+    splitWs [] (bgWord (attrColors attrs ([], [])).2) = [bgWord (attrColors attrs ([], [])).2] := by
+  simp only [stackStep] at h
+  generalize attrColors attrs ([], []) = p at h ⊢
+  obtain ⟨fg, bg⟩ := p
+  simp only at h
+  split at h
+  · simp at h
+  · split at h
+    · simp at h
+    · rename_i h1 h2
+      have hfg : hasPySpace fg = false := by simpa using h1
+      have hbg : hasPySpace bg = false := by simpa using h2
+      have hp : hasPySpace "fg:".toList = false := by decide
+      have hq : hasPySpace "bg:".toList = false := by decide
+      constructor
+      · apply splitWs_noSpace [] (fgWord fg)
+        · simp only [fgWord, hasPySpace, List.any_append, Bool.or_eq_false_iff]
+          exact ⟨hp, hfg⟩
+        · simp [fgWord]
+      · apply splitWs_noSpace [] (bgWord bg)
+        · simp only [bgWord, hasPySpace, List.any_append, Bool.or_eq_false_iff]
+          exact ⟨hq, hbg⟩
+        · simp [bgWord]
+
+/-- the repaired defect: a carriage return (which `html_escape` lets through as `&#13;`) or a
+    no-break space in a colour is rejected like a space -/
+example : html "<style fg=\"ansired&#13;bold\">x</style>".toList = .error .value ∧
+    html ("<style color='a".toList ++ [Char.ofNat 0xA0] ++ "bold'>x</style>".toList) = .error .value ∧
+    html "<style bg='a&#x2003;b'>x</style>".toList = .error .value ∧
+    html "<style fg='ansired'>x</style>".toList = .ok [⟨"fg:ansired".toList, "x".toList, none⟩] := by
+  refine ⟨by rfl, by rfl, by rfl, by rfl⟩
+
+example : splitWs [] "fg:a\rbold  x".toList = ["fg:a".toList, "bold".toList, "x".toList] := by decide
 
 end Ptk.C18
